@@ -304,7 +304,7 @@ class Run(object):
             p.run()
             return None
         if k == "conv":
-            return p.get_converted_psd(op["sides"])
+            return p.get_converted_psd("".join(list(op["sides"])))
         if k == "power":
             return p.power()
         if k == "str":
@@ -330,6 +330,8 @@ class Run(object):
                 self.last_source = v if isinstance(v, np.ndarray) else None
             elif isinstance(v, dict) and "np" in v:
                 v = getattr(np, v["np"])(v["v"])      # numpy scalar (np.int64(4), np.float64(2.0), np.bool_(True))
+            elif isinstance(v, str):
+                v = "".join(list(v))                  # a run-time string, not an interned literal
             setattr(p, op["attr"], v)
             return None
         if k == "reassign":
@@ -1024,7 +1026,48 @@ STRATA = {
 }
 
 
+F_SAMPLINGS = [1.0, 2.0, 0.5, 0.1, 0.9, 3.0, 3.3, 7.0, 10.0, 100.0, 1000.0, 1024.0, 8000.0, 44100.0]
+F_NFFT = {"F": (16, 144), "Ffull": (16, 528)}
+
+
+def run_first_read(seed, stratum, index):
+    """Stratum F: class x NFFT x sampling x data type, one read and one sides round: `frequencies()` has the
+    length of psd and df == sampling/NFFT for every grid, including the (NFFT, sampling) pairs for which
+    floating-point axis arithmetic goes wrong.  No reference object is evaluated (nothing can be stale)."""
+    lo, hi = F_NFFT[stratum]
+    i = index
+    cplx = i % 2; i //= 2
+    fs = F_SAMPLINGS[i % len(F_SAMPLINGS)]; i //= len(F_SAMPLINGS)
+    nfft = lo + i % (hi - lo); i //= (hi - lo)
+    cls = sut.CLASS_NAMES[i % len(sut.CLASS_NAMES)]
+    rng = random.Random(seed)
+    cfg = gen_cfg(rng, cls=cls, cplx=bool(cplx), N=16, mode="fault_free")
+    cfg["init"]["NFFT"] = nfft
+    cfg["init"]["sampling"] = fs
+    if cls == "pcorrelogram":
+        cfg["init"]["lag"] = 5
+    run = Run(cfg, defer=True, install_plane=False)
+    try:
+        if run.init_error is not None:
+            return run
+        if run.step({"op": "read"}, "read"):
+            return run
+        for s_ in ("twosided", "centerdc"):
+            if run.step({"op": "set", "attr": "sides", "value": s_}, "sides:" + s_) or run.step({"op": "read"}, "read"):
+                return run
+        run.bump("reads_checked_for_length_and_df_only", len(run.pending))
+        run.stats["reads_checked"] = run.stats.get("reads_checked", 0) - len(run.pending)
+        run.checked_reads -= len(run.pending)
+        run.pending = []          # deferred references are deliberately not evaluated in this stratum
+        return run
+    finally:
+        run.close()
+
+
 def stratum_size(stratum):
+    if stratum in F_NFFT:
+        lo, hi = F_NFFT[stratum]
+        return len(sut.CLASS_NAMES) * (hi - lo) * len(F_SAMPLINGS) * 2
     if stratum in STRATA:
         _, length, core = STRATA[stratum]
         return stratumA_space(length, core)
@@ -1043,6 +1086,8 @@ def run_index(stratum, index, base_seed, ctx):
         run = run_systematic(seed, index, length, core, pristine=pristine, pristine_final=pf)
     elif stratum == "R":
         run = run_range(seed)
+    elif stratum in F_NFFT:
+        run = run_first_read(seed, stratum, index)
     elif stratum.startswith("M:"):
         run = run_multi(seed, stratum[2:], pristine=pristine, pristine_final=pf)
     else:
@@ -1231,7 +1276,7 @@ ASSUMPTIONS = [
 PLANS = {
     "quick": {
         "strata": [("A1", 10**9), ("A2", 10**9), ("B:fault_free", 5000), ("B:natural", 7000),
-                   ("B:injected", 7000), ("B:mixed", 5000), ("M:natural", 6000), ("R", 3000)],
+                   ("B:injected", 7000), ("B:mixed", 5000), ("M:natural", 6000), ("R", 3000), ("F", 10**9)],
         "opts": {"pristine": True, "pristine_rate": 16, "selftest_n": 40},
         "wall_cap_s": 900,
     },
@@ -1239,7 +1284,7 @@ PLANS = {
         "strata": [("A1", 10**9), ("A2f", 10**9), ("A3", 10**9), ("A3f", 1500000), ("A4", 1500000),
                    ("B:fault_free", 150000),
                    ("B:natural", 250000), ("B:injected", 250000), ("B:mixed", 150000), ("M:natural", 200000),
-                   ("M:fault_free", 100000), ("R", 200000)],
+                   ("M:fault_free", 100000), ("R", 200000), ("Ffull", 10**9)],
         "opts": {"pristine": True, "pristine_rate": 8, "selftest_n": 100},
         "wall_cap_s": 6 * 3600,
     },
